@@ -410,7 +410,11 @@ def _real_replay(fn_name, args):
         return True
     _judge = real_judge
     try:
-        ok = globals()[fn_name](**args)
+        try:
+            ok = globals()[fn_name](**args)
+        except Exception as e:  # noqa
+            detail["raised_on_real_stack"] = "%s: %s" % (type(e).__name__, str(e)[:200])
+            return True, detail
         return (not ok), detail
     finally:
         _judge = old_judge
